@@ -64,13 +64,5 @@ def c04_structure(ctx):
     names = [ast.unparse(n.func) for n in ast.walk(fn) if isinstance(n, ast.Call) and isinstance(n.func, ast.Name)]
     bad = [n for n in names if n in NOT_ONTO]
     ctx.oblige("C04/triangular_spline_flow/struct/no_non_onto_layer", not bad and "LeakyTanh" in names, [], props, kind="struct", fn="flowjax.flows.triangular_spline_flow", note=f"layer constructors used: {sorted(set(names))}", replay=dict(kind="c04", vars={}))
-    # factories: every one returns Transformed(base_dist, Invert(Scan(layers)) | Scan(layers)) with base_dist passed through
-    for fname in ("coupling_flow", "masked_autoregressive_flow", "block_neural_autoregressive_flow", "planar_flow", "triangular_spline_flow"):
-        f = find_def(ftree, fname)
-        rets = [n for n in ast.walk(f) if isinstance(n, ast.Return) and n.value is not None and not isinstance(n.value, ast.Name)]
-        outer = [r for r in f.body if isinstance(r, ast.Return)]
-        src = ast.unparse(f)
-        ok = bool(outer) and ast.unparse(outer[-1].value) == "Transformed(base_dist, bijection)" and "bijection = Invert(Scan(layers)) if invert else Scan(layers)" in src
-        ctx.oblige(f"C04/{fname}/struct/same_base_and_oriented_bijection", ok, [], ["C04", "C03"], kind="struct", fn=f"flowjax.flows.{fname}", replay=dict(kind="c04", vars={}),
-                   note="sampling (transform) and density (inverse) go through ONE bijection object and ONE base distribution (C03 proves the three paths of Transformed agree)")
+    # factories: executed symbolically in flows/factories (contracts/flowsfac.py): Transformed(given base, Invert(Scan(L)) | Scan(L))
     ctx.assume_note("C04: change-of-variables theorem (Mathlib MeasureTheory.integral_image_eq_integral_abs_det_fderiv_smul) cited, not instantiated; base densities normalised and base samplers exact (T3); bijectivity of Planar(tanh) (no closed-form inverse) and onto-ness of BNAF / Coupling / MaskedAutoregressive compositions follow from triangular structure with onto transformers (cited, C09 + C01) and are not re-proved here; the statistical statement 'samples are distributed according to the density' is not decided by this technique (bounded goodness-of-fit stand-in only)")
